@@ -4,6 +4,7 @@ import (
 	"context"
 	"errors"
 	"fmt"
+	"os"
 	"sort"
 	"strings"
 	"time"
@@ -925,6 +926,22 @@ func init() {
 			return
 		}
 		c09AgedImage() // built outside any controlled execution
+		// --replay of a violation of the sequential part: the recorded action sequence, fresh and aged database
+		if _, _, sched := e3Replay(c); !sched && os.Getenv("VERIF_SHARD") == "" {
+			if seq, ok := replaySeq(c, c09Actions); ok {
+				for _, aged := range []bool{false, true} {
+					rn := &c09Runner{c: c, aged: aged, w: c09NewWorld(aged), sweep: true, stats: &c09Stats{}}
+					rn.h.refresh(rn.w.Engine.Catalog())
+					for _, a := range seq {
+						rn.Step(a)
+					}
+					rn.Done()
+				}
+				r.Set("replayed_actions", int64(len(seq)))
+				r.Set("exhaustive", false)
+				return
+			}
+		}
 		// ---- concurrent part: one worker process per scenario
 		scs := c09Scenarios()
 		base := 2
